@@ -102,24 +102,27 @@ let elf_model (fields : string list) (ops : string list) : string list =
         | _ -> "?") ops
   | _ -> failwith "bad elf fields"
 
-(* SADUMP: "bs:sub:bb:db:maxm:hdr_pos" and "A=<rle of the file from mem_off on>" *)
+(* SADUMP: "bs:sub:bb:db:maxm:hdr_pos", "N=<disk numbers of the files in the order given>",
+   "A=<rle of file 1 up to the end of the bitmaps>;<file 2>;..." *)
 let sadump_model (fields : string list) (ops : string list) : string list =
   match fields with
-  | [g; a] ->
+  | [g; nn; a] ->
       let nums = Stdlib.List.map n_of_hex (split_on ':' g) in
+      let disknums = Stdlib.List.map n_of_hex (split_on '.' (String.sub nn 2 (String.length nn - 2))) in
       (match nums with
        | [bs; sub; bb; db; maxm; hdr] ->
-           let area = parse_rle (String.sub a 2 (String.length a - 2)) in
-           if Stdlib.List.length area > 20000 then ["-"] else
+           let files = Stdlib.List.map parse_rle (split_on ';' (String.sub a 2 (String.length a - 2))) in
+           if Stdlib.List.exists (fun f -> Stdlib.List.length f > 40000) files then ["-"] else
            let geo = SadGeomModel.sadump_geom hdr bs sub bb db in
-           let (max1, fr) = SadGeomModel.sd_file_regions BinNums.N0 area geo maxm [] in
+           (match SadGeomModel.disk1_index disknums BinNums.N0 with
+            | None -> failwith "model: no disk #1"
+            | Some k ->
+           let (max1, fr) = SadGeomModel.sd_set_file_regions BinNums.N0 files geo k maxm [] in
            let file_map = match fr with
              | (ROk rs, _) -> { regions = rs; start_pfn = BinNums.N0;
                                 end_pfn = BinNat.N.mul geo.SadGeomModel.sg_bmp_len (n_of_int 8) }
              | _ -> failwith "model: sadump file regions" in
-           (* memory.pagemap is built lazily; its clipping of max_pfn happens at the first
-              memory.pagemap query: the driver asks for the attribute before any query *)
-           let (max2, mr) = SadGeomModel.sd_mem_regions BinNums.N0 area geo max1 [] in
+           let (max2, mr) = SadGeomModel.sd_set_mem_regions false BinNums.N0 files geo k max1 [] in
            let mem_map = match mr with
              | (ROk rs, _) -> { regions = rs; start_pfn = BinNums.N0;
                                 end_pfn = BinNat.N.mul geo.SadGeomModel.sg_mem_size (n_of_int 8) }
@@ -128,12 +131,16 @@ let sadump_model (fields : string list) (ops : string list) : string list =
              if o.[0] = 'R' then
                show_res (fun b -> if b then "ok" else "nodata")
                  (SadGeomModel.sd_page_stored file_map max2 (n_of_hex (String.sub o 2 (String.length o - 2))))
-             else maps_op [if o.[0] = 'F' then file_map else mem_map] (String.sub o 1 (String.length o - 1))) ops
+             else maps_op [if o.[0] = 'F' then file_map else mem_map] (String.sub o 1 (String.length o - 1))) ops)
        | _ -> failwith "bad sadump geometry")
   | _ -> ["-"]
 
 let model_hooks : (string * (string list -> string list -> string list)) list ref =
   ref [ "d", diskdump_model; "e", elf_model; "s", sadump_model ]
+
+(* an op run on a clone ("C" prefix) must give the same answer *)
+let norm_op (o : string) : string =
+  if String.length o > 0 && o.[0] = 'C' then String.sub o 1 (String.length o - 1) else o
 
 let run_case (line : string) : string =
   let (hd, rest) = split_at line " T " in
@@ -143,7 +150,8 @@ let run_case (line : string) : string =
   | "E" :: fmt :: fields ->
       (match Stdlib.List.assoc_opt fmt !model_hooks with
        | None -> "-"
-       | Some f -> (match f fields (Util.words ops) with ["-"] -> "-" | l -> "E " ^ String.concat " " l))
+       | Some f -> (match f fields (Stdlib.List.map norm_op (Util.words ops)) with
+                    | ["-"] -> "-" | l -> "E " ^ String.concat " " l))
   | _ -> failwith "bad case"
 
 let spec_case (line : string) : string =
@@ -155,7 +163,7 @@ let spec_case (line : string) : string =
   let stored = parse_runs (String.trim st) and ram = parse_runs (String.trim rm) in
   if String.length impl > 0 && impl.[0] = 'X' then "a well-formed dump failed to open: " ^ impl else
   let answers = match Util.words impl with "E" :: t -> t | _ -> failwith "bad impl line" in
-  let ops = Util.words ops in
+  let ops = Stdlib.List.map norm_op (Util.words ops) in
   let (answers, hist) = match Stdlib.List.rev answers with
     | h :: t -> (Stdlib.List.rev t, h) | [] -> ([], "") in
   if Stdlib.List.length ops <> Stdlib.List.length answers then "wrong number of answers" else
